@@ -114,6 +114,9 @@ func vhDepsSource(depth int, x string) string {
 		src = "package main\nvar a = f()\nvar b = 1\nvar c = 2\nfunc f() int { return " + x + " }\n"
 	case 2:
 		src = "package main\nvar a = f()\nvar b = 1\nvar c = 2\nfunc f() int { return g() }\nfunc g() int { return " + x + " }\n"
+	case 4:
+		// two variables reach X through the same function
+		src = "package main\nvar a = f()\nvar d = f() + 1\nvar b = 1\nvar c = 2\nfunc f() int { return " + x + " }\n"
 	case 3:
 		// a local variable shadows the other global: no dependency on it
 		src = "package main\nvar a = f()\nvar b = 1\nvar c = 2\nfunc f() int { " + vhOther(x) + " := 5; return " + x + " + " + vhOther(x) + " }\n"
@@ -173,8 +176,12 @@ func vhDepsHand(i *Interpreter, depth int, x string) (a *node, sc *scope, want, 
 		fsym := &symbol{kind: funcSym}
 		vhAdopt(an, aid, vhAdopt(&node{interp: i, kind: callExpr}, ref("f", fsym)))
 		switch depth {
-		case 1:
+		case 1, 4:
 			fsym.node = vhFuncDecl(i, "f", vhAdopt(&node{interp: i, kind: returnStmt}, ref(x, xsym)))
+			if depth == 4 {
+				dn, _ := mkVar("d")
+				vhAdopt(dn, ref("d", nil), vhAdopt(&node{interp: i, kind: binaryExpr}, vhAdopt(&node{interp: i, kind: callExpr}, ref("f", fsym)), &node{interp: i, kind: basicLit}))
+			}
 		case 2:
 			gsym := &symbol{kind: funcSym}
 			gsym.node = vhFuncDecl(i, "g", vhAdopt(&node{interp: i, kind: returnStmt}, ref(x, xsym)))
@@ -203,7 +210,7 @@ func vhDepsReal(depth int, x string) (a *node, sc *scope, want, other *node) {
 	return sc.sym["a"].node, sc, sc.sym[x].node, sc.sym[vhOther(x)].node
 }
 
-var vhDepthMax = 3
+var vhDepthMax = 4
 
 func vh_C15_deps() {
 	vhResetClock()
@@ -221,19 +228,35 @@ func vh_C15_deps() {
 		a, sc, want, other = vhDepsReal(depth, x)
 	}
 	vReach("C15.deps")
-	deps := getVarDependencies(a, sc)
-	found, spurious := false, false
-	for _, d := range deps {
-		if d == want {
-			found = true
-		}
-		if d == other {
-			spurious = true
+	// The collector is reached through genGlobalVarDecl (its caller): with a
+	// declared first, the order tells which dependencies were found.
+	bN, cN := want, other
+	if x == "c" {
+		bN, cN = other, want
+	}
+	vars := []*node{a, bN, cN}
+	var dep [vhMaxVars][vhMaxVars]bool
+	xi := 1
+	if x == "c" {
+		xi = 2
+	}
+	dep[0][xi] = true // a refers to X, directly or through functions, and to nothing else
+	if depth == 4 {
+		// a, d, b, c: d refers to X through the same function
+		vars = []*node{a, sc.sym["d"].node, bN, cN}
+		dep[0][xi] = false
+		dep[0][xi+1], dep[1][xi+1] = true, true
+	}
+	nv := len(vars)
+	varNode, err := genGlobalVarDecl(vars, sc)
+	wantOrder, _ := vhSpecOrder(nv, &dep)
+	ok := err == nil && varNode != nil && len(varNode.child) == nv
+	for k := 0; ok && k < nv; k++ {
+		if varNode.child[k] != vars[wantOrder[k]] {
+			ok = false
 		}
 	}
-	vKnown("C15.deps-through-functions-missed", depth >= 1)
-	vAssert("C15.deps.referenced-global-is-dependency", found)
-	vAssert("C15.deps.no-false-dependency", !spurious)
+	vAssert("C15.deps.order-reflects-references", ok)
 }
 
 // ---- native scenario: the same dependency relation as a real program ----
